@@ -1,0 +1,17 @@
+//go:build verif
+
+package config
+
+// Verification hooks for the update transaction (build tag "verif" only).
+
+// VerifRequiresRestart reports whether a change of the property asks for a restart.
+func (p *ConfigProp[T]) VerifRequiresRestart() bool { return p.requiresRestart }
+
+// VerifStaged reports whether a value is staged and not yet committed or discarded.
+func (p *ConfigProp[T]) VerifStaged() bool {
+	commit, _ := p.value.Load()
+	return commit.stagedValue.IsSome()
+}
+
+// VerifVerify runs the check every load and every update runs on the configuration.
+func VerifVerify(cfg *Config) error { return cfg.verify() }
